@@ -61,7 +61,7 @@ func histGenerate(ctx *core.Ctx, exhaustLen, nSeeded, maxLen int, stream uint64,
 		switch a {
 		case "MAIL", "RCPT", "DATA", "BDAT", "BDAT_LAST":
 			w = 5
-		case "EHLO", "LHLO", "RSET", "RCPT_REJ", "DATA_REJ", "BDAT_LAST_REJ", "BDAT_FAIL", "BDAT0_LAST", "MAIL_BIN_REJ":
+		case "EHLO", "LHLO", "RSET", "RCPT_REJ", "DATA_REJ", "BDAT_LAST_REJ", "BDAT_FAIL", "BDAT_FAIL_LAST", "BDAT0_LAST", "MAIL_BIN_REJ":
 			w = 2
 		}
 		for ; w > 0; w-- {
